@@ -311,12 +311,22 @@ class ChildrenList(list):
         :param item: item to be deleted the list.
         :type item: :py:class:`psyclone.psyir.nodes.Node`
 
+        :raises ValueError: if the item is not in the list.
+
         '''
-        for position in range(self.index(item) + 1, len(self)):
-            self._validate_item(position - 1, self[position])
-        self._del_parent_link(item)
-        super().remove(item)
-        self._node_reference.update_signal()
+        # Nodes are compared by value (two different nodes with the same
+        # contents are equal) but the node to remove is the given one, not
+        # the first one that is equal to it, so it is looked up by identity.
+        for position, child in enumerate(self):
+            if child is item:
+                break
+        else:
+            raise ValueError(
+                f"Item '{type(item).__name__}' can't be removed because it "
+                f"is not a child of "
+                f"'{self._node_reference.coloured_name(False)}'.")
+        # This validates the displaced items and removes the parent link
+        del self[position]
 
     def pop(self, index=-1):
         ''' Extends list pop method with children node validation.
